@@ -300,11 +300,10 @@ func (c *ClusterInfo) Sync(cluster *proxyv1alpha1.UpstreamCluster) error {
 
 	klog.V(5).Infof("[cluster info] syncing cluster info, name=%q", c.Cluster)
 
-	if cluster.Annotations != nil {
-		if err := c.syncFeatureGate(cluster.Annotations); err != nil {
-			// we should never get here because there is validating admission
-			return err
-		}
+	// also without annotations: gates switched on by an earlier version must be switched off again
+	if err := c.syncFeatureGate(cluster.Annotations); err != nil {
+		// we should never get here because there is validating admission
+		return err
 	}
 
 	// sync flow control type
@@ -560,11 +559,13 @@ func (c *ClusterInfo) FeatureEnabled(key featuregate.Feature) bool {
 
 func (c *ClusterInfo) syncFeatureGate(annotations map[string]string) error {
 	featuregate := annotations[features.FeatureGateAnnotationKey]
+	// Set() merges into the current gates, so always start from the defaults:
+	// a gate that is no longer mentioned in the annotation goes back to its default
+	if !features.IsDefault(c.featuregate) {
+		// reset featuregate
+		c.featuregate = features.DefaultMutableFeatureGate.DeepCopy()
+	}
 	if len(featuregate) == 0 {
-		if !features.IsDefault(c.featuregate) {
-			// reset featuregate
-			c.featuregate = features.DefaultMutableFeatureGate.DeepCopy()
-		}
 		return nil
 	}
 	return c.featuregate.Set(featuregate)
